@@ -152,4 +152,4 @@ def search(rng, ops, broken):
 
 
 # tie theorems (substrings of SLV.Gen.*Tie theorem names) this property's operators depend on
-TIE = []
+TIE = ['gen_BOpinion_abs_diff_eq_eq', 'gen_BOpinion_relative_eq_eq', 'gen_BOpinion_ulps_eq_eq', 'gen_eq_']
